@@ -13,9 +13,13 @@ namespace Biscuit.Tables
 
 /- Reviewed after fixes 17e37bc / fa8fe31 (Build copies, checkDeclaredSymbols): the new entries are
 `*b.facts` in builderOptions.Build (the field is set by NewBuilder and never nil) and `*block.facts`
-in checkDeclaredSymbols (guarded by a nil test). -/
+in checkDeclaredSymbols (guarded by a nil test).
+Reviewed after fixes 9b20311 / 4a66546 (LoadPolicies: declared-symbols rule, translation into the
+authorizer's table): loadPoliciesV2 goes from 1 to 4 dereferences of a field — besides `*pbPolicy.Kind`
+(mandatory field, refused by proto.Unmarshal when absent) three times `*content.facts`, a field of the
+scratch block that the function itself sets to a non-nil fact set two lines above. -/
 
-def knownPanicSites : List (String × Nat) := [("authorizer.go:NewVerifier:deref-field", 1), ("authorizer.go:authorizer.Authorize:deref-field", 2), ("authorizer.go:authorizer.SerializePolicies:deref-field", 5), ("authorizer.go:authorizer.loadPoliciesV2:deref-field", 1), ("biscuit.go:Biscuit.Append:deref-field", 2), ("biscuit.go:Biscuit.Append:key-precondition", 2), ("biscuit.go:Biscuit.GetBlockID:deref-field", 2), ("biscuit.go:Biscuit.Seal:deref-field", 3), ("biscuit.go:Biscuit.Seal:key-precondition", 1), ("biscuit.go:Biscuit.String:deref-field", 1), ("biscuit.go:Biscuit.authorizerFor:deref-field", 3), ("biscuit.go:Biscuit.authorizerFor:key-precondition", 4), ("biscuit.go:Biscuit.authorizerFor:unchecked-assertion", 1), ("biscuit.go:Biscuit.generateWorld:deref-field", 2), ("biscuit.go:newBiscuit:key-precondition", 1), ("builder.go:blockBuilder.Build:deref-field", 2), ("builder.go:builderOptions.Build:deref-field", 2), ("builder.go:checkDeclaredSymbols:deref-field", 1), ("converters.go:tokenBlockToProtoBlock:deref-field", 4), ("converters_v2.go:protoExprBinaryToTokenExprBinary:deref-field", 1), ("converters_v2.go:protoExprUnaryToTokenExprUnary:deref-field", 1), ("converters_v2.go:protoExpressionToTokenExpressionV2:deref-field", 3), ("converters_v2.go:protoIDToTokenIDV2:deref-field", 7), ("converters_v2.go:protoPredicateToTokenPredicateV2:deref-field", 1), ("converters_v2.go:tokenCheckToProtoCheckV2:deref-field", 1), ("converters_v2.go:tokenExpressionToProtoExpressionV2:deref-field", 1), ("converters_v2.go:tokenExpressionToProtoExpressionV2:unchecked-assertion", 3), ("converters_v2.go:tokenIDToProtoIDV2:deref-field", 2), ("converters_v2.go:tokenIDToProtoIDV2:unchecked-assertion", 7), ("converters_v2.go:tokenPredicateToProtoPredicateV2:deref-field", 1), ("converters_v2.go:tokenRuleToProtoRuleV2:deref-field", 2), ("datalog/datalog.go:World.Clone:deref-field", 1), ("datalog/datalog.go:World.Query:deref-field", 1), ("datalog/datalog.go:World.Run:deref-field", 2), ("datalog/expressions.go:Expression.Evaluate:unchecked-assertion", 5), ("datalog/expressions.go:Expression.Print:unchecked-assertion", 5), ("datalog/expressions.go:GreaterOrEqual.Eval:unchecked-assertion", 4), ("datalog/expressions.go:GreaterThan.Eval:unchecked-assertion", 4), ("datalog/expressions.go:Length.Eval:unchecked-assertion", 3), ("datalog/expressions.go:LessOrEqual.Eval:unchecked-assertion", 4), ("datalog/expressions.go:LessThan.Eval:unchecked-assertion", 4), ("datalog/expressions.go:Negate.Eval:unchecked-assertion", 1), ("datalog/symbol.go:SymbolDebugger.World:deref-field", 2), ("datalog/symbol.go:SymbolTable.Index:panic-call", 1), ("datalog/symbol.go:SymbolTable.SplitOff:panic-call", 1), ("types.go:BinaryOp.convert:panic-call", 1), ("types.go:Block.Code:deref-field", 2), ("types.go:Block.String:deref-field", 1), ("types.go:UnaryOp.convert:panic-call", 1), ("types.go:fromDatalogExpression:unchecked-assertion", 3), ("types.go:fromDatalogID:unchecked-assertion", 7)]
+def knownPanicSites : List (String × Nat) := [("authorizer.go:NewVerifier:deref-field", 1), ("authorizer.go:authorizer.Authorize:deref-field", 2), ("authorizer.go:authorizer.SerializePolicies:deref-field", 5), ("authorizer.go:authorizer.loadPoliciesV2:deref-field", 4), ("biscuit.go:Biscuit.Append:deref-field", 2), ("biscuit.go:Biscuit.Append:key-precondition", 2), ("biscuit.go:Biscuit.GetBlockID:deref-field", 2), ("biscuit.go:Biscuit.Seal:deref-field", 3), ("biscuit.go:Biscuit.Seal:key-precondition", 1), ("biscuit.go:Biscuit.String:deref-field", 1), ("biscuit.go:Biscuit.authorizerFor:deref-field", 3), ("biscuit.go:Biscuit.authorizerFor:key-precondition", 4), ("biscuit.go:Biscuit.authorizerFor:unchecked-assertion", 1), ("biscuit.go:Biscuit.generateWorld:deref-field", 2), ("biscuit.go:newBiscuit:key-precondition", 1), ("builder.go:blockBuilder.Build:deref-field", 2), ("builder.go:builderOptions.Build:deref-field", 2), ("builder.go:checkDeclaredSymbols:deref-field", 1), ("converters.go:tokenBlockToProtoBlock:deref-field", 4), ("converters_v2.go:protoExprBinaryToTokenExprBinary:deref-field", 1), ("converters_v2.go:protoExprUnaryToTokenExprUnary:deref-field", 1), ("converters_v2.go:protoExpressionToTokenExpressionV2:deref-field", 3), ("converters_v2.go:protoIDToTokenIDV2:deref-field", 7), ("converters_v2.go:protoPredicateToTokenPredicateV2:deref-field", 1), ("converters_v2.go:tokenCheckToProtoCheckV2:deref-field", 1), ("converters_v2.go:tokenExpressionToProtoExpressionV2:deref-field", 1), ("converters_v2.go:tokenExpressionToProtoExpressionV2:unchecked-assertion", 3), ("converters_v2.go:tokenIDToProtoIDV2:deref-field", 2), ("converters_v2.go:tokenIDToProtoIDV2:unchecked-assertion", 7), ("converters_v2.go:tokenPredicateToProtoPredicateV2:deref-field", 1), ("converters_v2.go:tokenRuleToProtoRuleV2:deref-field", 2), ("datalog/datalog.go:World.Clone:deref-field", 1), ("datalog/datalog.go:World.Query:deref-field", 1), ("datalog/datalog.go:World.Run:deref-field", 2), ("datalog/expressions.go:Expression.Evaluate:unchecked-assertion", 5), ("datalog/expressions.go:Expression.Print:unchecked-assertion", 5), ("datalog/expressions.go:GreaterOrEqual.Eval:unchecked-assertion", 4), ("datalog/expressions.go:GreaterThan.Eval:unchecked-assertion", 4), ("datalog/expressions.go:Length.Eval:unchecked-assertion", 3), ("datalog/expressions.go:LessOrEqual.Eval:unchecked-assertion", 4), ("datalog/expressions.go:LessThan.Eval:unchecked-assertion", 4), ("datalog/expressions.go:Negate.Eval:unchecked-assertion", 1), ("datalog/symbol.go:SymbolDebugger.World:deref-field", 2), ("datalog/symbol.go:SymbolTable.Index:panic-call", 1), ("datalog/symbol.go:SymbolTable.SplitOff:panic-call", 1), ("types.go:BinaryOp.convert:panic-call", 1), ("types.go:Block.Code:deref-field", 2), ("types.go:Block.String:deref-field", 1), ("types.go:UnaryOp.convert:panic-call", 1), ("types.go:fromDatalogExpression:unchecked-assertion", 3), ("types.go:fromDatalogID:unchecked-assertion", 7)]
 
 theorem panicSites_tied : Generated.panicSites = knownPanicSites := by decide +kernel
 
